@@ -1,0 +1,185 @@
+//go:build verif
+
+// Contracts for the acv verifier (/verif). Comment-only file: no executable code.
+
+package postgresql
+
+//@ func FetchQueryFromParse(data []byte) (out []byte, err error)
+//@   props C12 C14
+//@   safety
+//@   ensures err == nil ==> 1 <= len(out) && len(out) <= len(data)
+//@   modifies nothing
+
+//@ func (num paramsNum) ToInt() (n int)
+//@   props C12 C14
+//@   safety
+//@   requires 2 <= len(num)
+//@   ensures n == int(be16(num)) && 0 <= n && n <= 65535
+//@   modifies nothing
+
+//@ func NewParsePacket(data []byte) (p *ParsePacket, err error)
+//@   props C12 C14
+//@   safety
+//@   loop 0 invariant 0 <= endIndex && endIndex <= len(data)
+//@   ensures err == nil ==> p != nil && 1 <= len(p.name) && 1 <= len(p.query) && len(p.paramsNum) == 2
+//@   ensures layout: err == nil ==> sameslice(p.name, data[:len(p.name)]) && sameslice(p.query, data[len(p.name):len(p.name)+len(p.query)]) && sameslice(p.paramsNum, data[len(p.name)+len(p.query):len(p.name)+len(p.query)+2])
+
+//@ func (packet *ParsePacket) Length() (n int)
+//@   props C12 C14
+//@   safety
+//@   ensures n == len(packet.name) + len(packet.query) + len(packet.paramsNum) + 4 * len(packet.params)
+//@   modifies nothing
+
+//@ func (packet *ParsePacket) ReplaceQuery(newQuery string)
+//@   props C12 C14
+//@   safety
+//@   ensures len(packet.query) == len(newQuery) + 1 && packet.query[len(newQuery)] == 0
+//@   ensures forall(i, 0, len(newQuery), packet.query[i] == newQuery[i])
+//@   modifies packet
+
+//@ func GetParameterFormatByIndex(i int, params []uint16) (f base.BoundValueFormat, err error)
+//@   props C12 C14 C19
+//@   safety
+//@   requires 0 <= i
+//@   modifies nothing
+
+//@ func readString(data []byte) (s string, rest []byte, err error)
+//@   props C12 C14
+//@   safety
+//@   ensures err == nil ==> len(s) + 1 + len(rest) == len(data) && sameslice(rest, data[len(s)+1:]) && data[len(s)] == 0
+//@   ensures err != nil ==> sameslice(rest, data)
+//@   modifies nothing
+
+//@ func writeString(buf *bytes.Buffer, s string) (n int, err error)
+//@   props C12 C14
+//@   safety
+//@   ensures err == nil && n == len(s) + 1 && buflen(buf) == old(buflen(buf)) + n
+//@   ensures bufbyte(buf, old(buflen(buf)) + len(s)) == 0
+
+//@ func readUint16Array(data []byte) (items []uint16, rest []byte, err error)
+//@   props C12 C14
+//@   safety
+//@   loop 0 invariant 0 <= $n && $n <= len(items) && len(remaining) == len(data) - 2 - 2 * $n && sameslice(remaining, data[2 + 2*$n:])
+//@          decreases len(items) - $n
+//@   ensures err == nil ==> len(items) == int(be16(data[0:2])) && len(rest) == len(data) - 2 - 2 * len(items)
+//@   ensures err != nil ==> sameslice(rest, data)
+
+//@ func readParameterArray(data []byte) (params [][]byte, rest []byte, err error)
+//@   props C12 C14
+//@   safety
+//@   loop 0 invariant 0 <= $n && $n <= len(parameters) && 0 <= len(remaining) && len(remaining) <= len(data) && sameslice(remaining, data[len(data)-len(remaining):])
+//@          decreases len(parameters) - $n
+//@   ensures err == nil ==> len(params) == int(be16(data[0:2])) && len(rest) <= len(data)
+//@   ensures err != nil ==> sameslice(rest, data)
+
+//@ func writeUint16Array(buf *bytes.Buffer, values []uint16) (n int, err error)
+//@   props C12 C14
+//@   safety
+//@   loop 0 invariant 0 <= $n && $n <= len(values) && buflen(buf) == old(buflen(buf)) + 2 + 2 * $n
+//@   ensures err == nil ==> n == 2 + 2 * len(values) && buflen(buf) == old(buflen(buf)) + n
+
+//@ func writeParameterArray(buf *bytes.Buffer, parameters [][]byte) (n int, err error)
+//@   props C12 C14
+//@   safety
+//@   requires len(parameters) <= 0xffff
+//@   loop 0 invariant 0 <= $n && $n <= len(parameters) && 2 <= totalLength && totalLength <= 2 + $n * 0x10000000004
+
+//@ func NewExecutePacket(data []byte) (p *ExecutePacket, err error)
+//@   props C12 C14
+//@   safety
+
+//@ func NewBindPacket(data []byte) (p *BindPacket, err error)
+//@   props C12 C14
+//@   safety
+
+//@ func (p *BindPacket) GetParameters() (out []base.BoundValue, err error)
+//@   props C12 C14
+//@   safety
+
+//@ func (p *BindPacket) GetResultFormats() (out []uint16, err error)
+//@   props C12 C14
+//@   safety
+
+//@ func (column *ColumnData) Length() (n int)
+//@   props C12 C14
+//@   safety
+//@   ensures column.isNull ==> n == 0
+//@   ensures !column.isNull ==> n == int(be32(column.LengthBuf))
+//@   ensures 0 <= n && n <= 0xffffffff
+//@   modifies nothing
+
+//@ func (column *ColumnData) SetData(newData []byte)
+//@   props C12 C14
+//@   safety
+//@   ensures sameslice(column.data, newData) && column.changed && be32(column.LengthBuf) == uint32(len(newData))
+//@   modifies column
+
+//@ func (column *ColumnData) readData(reader io.Reader, format base.BoundValueFormat) (err error)
+//@   props C12 C14
+//@   safety
+//@   requires !column.isNull
+//@   ensures err == nil && !column.isNull ==> len(column.data) == int(be32(column.LengthBuf))
+//@   ensures err == nil && column.isNull ==> column.data == nil
+//@   modifies column
+
+//@ func (packet *PacketHandler) updatePacketLength(newLength int)
+//@   props C12 C14
+//@   safety
+//@   requires 4 <= len(packet.descriptionLengthBuf)
+//@   ensures be32(packet.descriptionLengthBuf[0:4]) == uint32(newLength + 4)
+//@   modifies packet.descriptionLengthBuf[*]
+
+//@ func (packet *PacketHandler) setDataLengthBuffer(dataLengthBuffer []byte)
+//@   props C12 C14
+//@   safety
+//@   requires 4 <= len(dataLengthBuffer)
+//@   ensures packet.dataLength == int(be32(dataLengthBuffer[0:4])) - len(dataLengthBuffer)
+//@   modifies packet.dataLength, packet.descriptionLengthBuf[*]
+
+//@ func (packet *PacketHandler) readData(readLength bool) (err error)
+//@   props C12 C14
+//@   safety
+//@   requires 4 <= len(packet.descriptionLengthBuf)
+
+//@ func (packet *PacketHandler) readGeneralPacket() (err error)
+//@   props C12 C14
+//@   safety
+//@   requires 4 <= len(packet.descriptionLengthBuf)
+
+//@ func (packet *PacketHandler) readStartupPacket() (err error)
+//@   props C12 C14
+//@   safety
+//@   requires 4 <= len(packet.descriptionLengthBuf)
+
+//@ func (packet *PacketHandler) parseColumns(columnFormats []uint16) (err error)
+//@   props C12 C14
+//@   safety
+//@   loop 0 invariant 0 <= i
+
+//@ func (packet *PacketHandler) updateDataFromColumns(queryDataItems []*encryptor.QueryDataItem)
+//@   props C12 C14
+//@   safety
+//@   requires 4 <= len(packet.descriptionLengthBuf)
+//@   requires 0 <= packet.columnCount && packet.columnCount <= len(packet.Columns)
+//@   requires forall(k, 0, packet.columnCount, packet.Columns[k] != nil)
+
+//@ func (packet *PacketHandler) Marshal() (out []byte, err error)
+//@   props C12 C14
+//@   safety
+//@   requires 0 <= packet.dataLength && packet.dataLength <= 0xffffffff
+//@   ensures err == nil && len(out) == ite(packet.messageType[0] != 0, 1, 0) + len(packet.descriptionLengthBuf) + buflen(packet.descriptionBuf)
+
+//@ func (packet *PacketHandler) ReplaceQuery(newQuery string)
+//@   props C12 C14
+//@   safety
+//@   requires 4 <= len(packet.descriptionLengthBuf)
+
+//@ func (packet *PacketHandler) SetParsePacket(parsePacket *ParsePacket) (err error)
+//@   props C12 C14
+//@   safety
+//@   requires 4 <= len(packet.descriptionLengthBuf)
+
+//@ func (packet *PacketHandler) GetSimpleQuery() (q string, err error)
+//@   props C12 C14
+//@   safety
+//@   requires 1 <= packet.dataLength && packet.dataLength - 1 <= buflen(packet.descriptionBuf)
